@@ -288,7 +288,7 @@ Definition start (s : st) : st * list out :=
   | None => (s, [ONoUpdate])
   end.
 
-Inductive event := Start | Seg (bytes : list Z) | Disc.
+Inductive event := Start | Seg (bytes : list Z) | Disc | Err (code : Z).   (* Err: reconnect (error) callback with an espconn error code *)
 
 Definition step (s : st) (e : event) : st * list out :=
   if fx_done fx && halted s then (s, []) else
@@ -296,6 +296,7 @@ Definition step (s : st) (e : event) : st * list out :=
   | Start => if started s then (s, []) else start s
   | Seg b => if started s then recv s b else (s, [])
   | Disc => if started s then disconnect s else (s, [])
+  | Err _ => if started s then disconnect s else (s, [])     (* supla_esp_update_reconnect_cb: same for every code *)
   end.
 Fixpoint run_from (s : st) (evs : list event) : st * list out :=
   match evs with
@@ -394,6 +395,7 @@ Definition segfill (l seed : Z) : list Z :=
 Definition evs_of_wire (ws : list wire) : list event :=
   flat_map (fun w : wire => let '(k, a, b) := w in
               if k =? 6 then [Start] else if k =? 7 then [Seg b] else if k =? 8 then [Disc]
+              else if k =? 12 then [Err (nth 0 a 0)]
               else if k =? 10 then [Seg (segfill (nth 0 a 0) (nth 1 a 0))] else []) ws.
 Definition run_wire (fx : fixes) (ws : list wire) : list wire :=
   let c := fold_left cfg_step ws tcfg0 in
